@@ -1264,3 +1264,84 @@ func checkCleanResultsFromScanner(p *core.Prog, r *core.Result, rule string) {
 	}
 	r.Floor(rule, n, 2, "successful returns of label.Clean")
 }
+
+// checkRemovedDependenciesSeen (R1.17): the sources and dependencies a target declares are handed to its function
+// (self.sources, self.dependencies), so what it produced may depend on one that has since been removed from the list
+// (an entry deleted from sources=[...], a file that glob() no longer matches). The dependency loop only visits what is
+// declared now; so Evaluate also walks the dependencies the last execution recorded (targetInfo.Dependencies) and
+// marks the target's dependencies out of date where one of them is not among the current ones.
+func checkRemovedDependenciesSeen(p *core.Prog, r *core.Result, rule string) {
+	m := buildEvalModel(p, r, rule)
+	if m == nil {
+		return
+	}
+	scope := map[*ssa.Function]bool{m.Fn: true}
+	if m.DepsFn != nil {
+		scope[m.DepsFn] = true
+	}
+	for _, h := range m.Helpers {
+		scope[h] = true
+	}
+	fromRecorded := func(k ssa.Value) bool {
+		return core.DependsOn(k, core.SliceOpts{}, func(v ssa.Value) bool {
+			nx, ok := v.(*ssa.Next)
+			if !ok {
+				return false
+			}
+			rg, ok := nx.Iter.(*ssa.Range)
+			return ok && core.LoadOfField(rg.X, pkgRoot, "targetInfo", "Dependencies")
+		})
+	}
+	var found ssa.Instruction
+	for fn := range scope {
+		core.Instrs(fn, func(in ssa.Instruction) {
+			marks := false
+			switch x := in.(type) {
+			case *ssa.Call:
+				if b, ok := x.Call.Value.(*ssa.Builtin); ok && b.Name() == "append" {
+					marks = true
+				}
+			case *ssa.Store:
+				if b, isConst := core.ConstBool(x.Val); isConst && !b {
+					marks = true
+				}
+			case *ssa.Jump:
+				// a constant false flowing into a phi from this block
+				for _, sc := range x.Block().Succs {
+					for _, pin := range sc.Instrs {
+						ph, isPhi := pin.(*ssa.Phi)
+						if !isPhi {
+							break
+						}
+						for i, pred := range sc.Preds {
+							if pred == x.Block() {
+								if b, isConst := core.ConstBool(ph.Edges[i]); isConst && !b {
+									marks = true
+								}
+							}
+						}
+					}
+				}
+			}
+			if !marks {
+				return
+			}
+			if p.FactsAt(in).Find(func(c ssa.Value, val bool) bool {
+				e, ok := c.(*ssa.Extract)
+				if !ok || e.Index != 1 || val {
+					return false
+				}
+				lk, ok := e.Tuple.(*ssa.Lookup)
+				return ok && lk.CommaOk && fromRecorded(lk.Index) && !core.LoadOfField(lk.X, pkgRoot, "targetInfo", "Dependencies")
+			}) {
+				found = in
+			}
+		})
+	}
+	construct := "dawn.(*runTarget).Evaluate#removed-dependency-marks-out-of-date"
+	if found != nil {
+		r.OK(rule, construct, p.InstrPos(found), "a dependency recorded by the last execution that is not among the current ones marks the dependencies out of date")
+	} else {
+		r.Bad(rule, construct, p.Pos(m.Fn.Pos()), "Evaluate never looks at the dependencies the last execution recorded but the target no longer declares: removing an entry from sources=[...] (or deleting a file matched by glob()) does not re-run the target although its function is handed the list, so the incremental build keeps outputs computed from the removed source where a from-scratch build of the same tree does not")
+	}
+}
